@@ -56,8 +56,16 @@ void accepted_laws(BitmapFile& b, const char* ctx, Stats& st) {
 	V_CHECK(b.pixels.size() == pt * H, ctx << ": " << b.pixels.size() << " pixel bytes for " << H << " rows of pitch " << pt);
 	V_CHECK(b.palette.size() <= (size_t(1) << depth), ctx << ": palette of " << b.palette.size() << " entries at depth " << depth);
 	// write -> read preserves geometry, palette entries at their index, meaningful pixel bytes; padding zero
+	BitmapFile before = b;
 	std::vector<uint8_t> w = write_bmp(b);
+	V_CHECK(b == before && b.palette.size() == before.palette.size(), ctx << ": WriteIndexed altered the bitmap it was given");
 	check_written(w, b.imageHeader.width, b.imageHeader.height, depth, ctx);
+	if ((w.size() & 7) == 0 && b.imageHeader.compression == BmpCompression::Uncompressed) {   // the file-name overload writes the same bytes, also over an older, longer file
+		std::string fp = scratch_path("c08_out.bmp"); write_file(fp, std::vector<uint8_t>(w.size() + 5000, 0x3D));
+		b.WriteIndexed(fp); std::vector<uint8_t> wf; read_file(fp, wf);
+		V_CHECK(wf == w, ctx << ": WriteIndexed(filename) over an existing longer file gives " << wf.size() << " bytes, the stream overload " << w.size());
+		st.cls("written_via_file_over_longer_file");
+	}
 	BitmapFile b2; o = guarded([&] { b2 = read_bmp(w); }, &what);
 	V_CHECK(o == Out::Ok, ctx << ": bitmap written by the library cannot be read back: " << what << " (palette entries " << b.palette.size() << " of " << (1u << depth) << ")");
 	V_CHECK(b2.imageHeader.width == b.imageHeader.width && b2.imageHeader.height == b.imageHeader.height && b2.imageHeader.bitCount == depth, ctx << ": geometry changed by write+read");
@@ -118,13 +126,15 @@ void factory_case(unsigned depth, uint32_t width, int32_t height, unsigned mode,
 	uint64_t pt = refgfx::pitch(width, depth), rb = refgfx::row_bytes(width, depth), H = absh(height);
 	std::vector<uint8_t> px(size_t(pt * H), 0);
 	if (mode == 2) { auto rnd = t.expand(px.size()); for (uint64_t y = 0; y < H; ++y) for (uint64_t k = 0; k < rb; ++k) px[size_t(y * pt + k)] = rnd[size_t(y * pt + k)]; }
+	bool dirtyPad = false; if (mode == 3) { px = t.expand(px.size()); dirtyPad = pt > rb && H > 0; }   // row padding non-zero as well: meaningful bytes survive, padding is written as zero
 	std::string what;
 	Out o = guarded([&] { b = mode == 0 ? BitmapFile::CreateIndexed(uint16_t(depth), width, height) : mode == 1 ? BitmapFile::CreateIndexed(uint16_t(depth), width, height, pal) : BitmapFile::CreateIndexed(uint16_t(depth), width, height, pal, px); }, &what);
 	V_CHECK(o == Out::Ok, "factory refused depth " << depth << " " << width << "x" << height << " mode " << mode << ": " << what);
 	for (size_t i = 0; i < pal.size(); ++i) V_CHECK(b.palette[i] == pal[i], "factory dropped palette entry " << i);
-	if (mode == 2) V_CHECK(b.pixels == px, "factory changed the pixels");
+	if (mode >= 2) V_CHECK(b.pixels == px, "factory changed the pixels");
 	accepted_laws(b, "factory bitmap", st);
 	BitmapFile back = read_bmp(write_bmp(b));
+	if (dirtyPad) { st.cls("factory:dirty_padding"); return; }   // equality of the whole object is only promised when the padding was zero
 	V_CHECK(back == b, "factory bitmap (depth " << depth << ", " << width << "x" << height << ", mode " << mode << ", palette " << pal.size() << ") does not round-trip to an equal object");
 	st.cls("factory:mode" + std::to_string(mode));
 	if ((H >= 2 && pt > rb) || (pn && pn < maxc)) st.nt(hmix(hmix(depth * 1000 + width, uint32_t(height)), mode * 1000 + pn) ^ 0xFA);
@@ -134,7 +144,7 @@ void factory_case(unsigned depth, uint32_t width, int32_t height, unsigned mode,
 void run_case(Tape& t, Stats& st) {
 	if (t.below(3) == 0) {
 		unsigned depth = t.pick<unsigned>({1, 4, 8}); uint32_t w = uint32_t(t.below(71)); if (t.below(12) == 0) w = t.pick<uint32_t>({255, 256, 1000, 4096});
-		int32_t h = int32_t(t.below(81)) - 40; unsigned mode = unsigned(t.below(3));
+		int32_t h = int32_t(t.below(81)) - 40; unsigned mode = unsigned(t.below(4));
 		if (st.want_sample()) st.sample("{\"factory\":{\"depth\":" + std::to_string(depth) + ",\"width\":" + std::to_string(w) + ",\"height\":" + std::to_string(h) + ",\"mode\":" + std::to_string(mode) + "}}");
 		factory_case(depth, w, h, mode, t, st);
 		return;
@@ -165,6 +175,15 @@ void run_sweep(Stats& st) {
 			file_case(L, st);
 		}
 		for (unsigned mode = 0; mode < 3; ++mode) { Tape t(tp); factory_case(depth, uint32_t(width), height, mode, t, st); }
+	}
+	// factory dimensions at the edge of the width type: 2^31-1 columns with no rows is a legal (empty) bitmap; widths that are negative as int32 are refused
+	for (unsigned depth : {1u, 4u, 8u}) {
+		if (!sw("factory_extreme_width", depth)) continue;
+		BitmapFile e; std::string what; Out o = guarded([&] { e = BitmapFile::CreateIndexed(uint16_t(depth), 0x7FFFFFFFu, 0); }, &what);
+		V_CHECK(o == Out::Ok, "factory refused depth " << depth << " width 2^31-1 height 0: " << what);
+		V_CHECK(e.pixels.empty() && e.imageHeader.width == 0x7FFFFFFF && e.imageHeader.height == 0, "factory bitmap 2^31-1 x 0 has pixels or other geometry");
+		V_CHECK(read_bmp(write_bmp(e)) == e, "factory bitmap 2^31-1 x 0 does not round-trip to an equal object");
+		for (uint32_t w : {0x80000000u, 0x80000001u, 0xFFFFFFFFu}) for (int32_t h : {0, 1, -1}) V_CHECK(guarded([&] { BitmapFile::CreateIndexed(uint16_t(depth), w, h); }) == Out::Err, "factory accepted width " << w << " (negative as a signed 32-bit value) height " << h);
 	}
 	// row bit lengths that reach 2^32: pixel data sized for the row length modulo 2^32 must not be accepted as a consistent bitmap
 	for (unsigned depth : {4u, 8u}) for (unsigned k = 1; k <= (depth == 8 ? 3u : 1u); ++k) for (uint32_t w0 = 0; w0 <= 12; ++w0) for (int32_t height : {-2, -1, 0, 1, 2, 3}) {
